@@ -356,7 +356,11 @@ func (in *Instance) StopWait(limit time.Duration) (returned bool, runErr error) 
 
 // Stop stops the instance and removes its temp dir (if it owns one).
 func (in *Instance) Stop() {
-	in.StopWait(60 * time.Second)
+	if Aborted() {
+		in.StopWait(5 * time.Second) // a violation is already recorded; a tree that cannot stop must not hold the verdict up
+	} else {
+		in.StopWait(60 * time.Second)
+	}
 	if in.ownDir {
 		os.RemoveAll(in.Dir)
 	}
@@ -405,6 +409,9 @@ func RunOnInstances(cfg InstCfg, n, workers int, maxAge time.Duration, f func(in
 				defer wg.Done()
 				for {
 					mu.Lock()
+					if Aborted() {
+						next = n
+					}
 					if next >= n || in.Age() > maxAge {
 						mu.Unlock()
 						return
